@@ -57,6 +57,8 @@ type IsoScenario struct {
 	Threads [][]wire.Op `json:"threads"`
 	Choices []int       `json:"choices"`
 	NoPool  bool        `json:"noPool,omitempty"` // reference mode: real pools, no scheduler hooks on pools
+	// Full: a short program explored in all its interleavings, whatever the preemption bound of the tier
+	Full bool `json:"full,omitempty"`
 }
 
 type isoResult struct {
@@ -105,7 +107,7 @@ func runIso(sc IsoScenario, prefix []int, only int) *isoResult {
 	var hk *ShimHooks
 	if !sc.NoPool {
 		hk = InstallShimHooks(s)
-		hk.PoolPoints = true
+		hk.PoolPoints = !sc.Full // (all interleavings of a short program: at lock and backend-request granularity)
 		vsync.H = poisonHooks{hk}
 		defer hk.Uninstall()
 		w.ConnHook = func(tier int, c *fakemc.Conn) {
@@ -253,6 +255,18 @@ func runC14(c *rt.Ctx) {
 				{{Kind: "set", Key: "c0-k", Val: "v0", Flags: 1}, {Kind: "gete", Key: "c0-k"}, {Kind: "get", Key: "c0-k"}},
 				{{Kind: "set", Key: "c1-k", Val: "v1", Flags: 2}, {Kind: "get", Key: "c1-k"}, {Kind: "delete", Key: "c1-k"}}}})
 		}
+		if cfg.Lock != "none" {
+			// one command per connection, all interleavings: a multi-key get (which the locking wrapper
+			// serves key by key, steering the terminator with per-connection state) next to another
+			// connection's get, multi-key get or write on keys of its own
+			multi := func(i int) wire.Op {
+				k, m := fmt.Sprintf("k%d", i), fmt.Sprintf("m%d", i)
+				return wire.Op{Kind: "mget", Keys: []string{m, k}, Quiet: []bool{cfg.Proto == "binary", false}}
+			}
+			for _, other := range []wire.Op{{Kind: "get", Key: "k1"}, multi(1), {Kind: "set", Key: "k1", Val: "v"}} {
+				scs = append(scs, IsoScenario{Cfg: cfg, Threads: [][]wire.Op{{multi(0)}, {other}}, Full: true})
+			}
+		}
 		for _, sc := range scs {
 			item++
 			if !c.Mine(item) {
@@ -263,6 +277,9 @@ func runC14(c *rt.Ctx) {
 			}
 			ref := isoReference(c, sc)
 			ex := &sched.Explorer{Bound: bound, MaxExecs: maxExecs, Expired: c.Expired}
+			if sc.Full {
+				ex.Bound, ex.MaxExecs = -1, 60000
+			}
 			outs := map[string]bool{}
 			violated := false
 			ex.Explore(func(prefix []int) *sched.Sched {
@@ -295,7 +312,7 @@ func runC14(c *rt.Ctx) {
 				return r.S
 			}, func(s *sched.Sched) bool { return !violated }) // a violating program need not be enumerated further
 			if ex.Truncated {
-				c.Cap(fmt.Sprintf("schedule cap %d reached (preemption bound %d not completed) for a program of %s", maxExecs, bound, cfg))
+				c.Cap(fmt.Sprintf("schedule cap %d reached (preemption bound %d not completed) for a program of %s", ex.MaxExecs, ex.Bound, cfg))
 			}
 			key := fmt.Sprintf("%s|%v", cfg, sc.Threads)
 			c.Distinct(key)
